@@ -180,7 +180,7 @@ F = {
   what='A 1.3 kB .p12 keeps psPkcs12ParseMem busy for hours (running time effectively unbounded by the input size).',
   cause='The INTEGER is used as the loop bound without any sanity limit.',
   input='sample .p12 with iterations = 0x7fffffff in the first pkcs-12PbeParams.',
-  fix='PS_PBE_MAX_ITERATIONS (default 1 000 000, overridable) checked at the three places.'),
+  fix='PS_PBE_MAX_ITERATIONS (default 250 000, overridable in cryptoConfig.h) checked at the three places. The check detects this defect deterministically: targets linked with --wrap=psSha1Final fail with `work-bound:sha1-finalisations` once one input causes more than 1.5 M (PKCS#12) / 3 M (PKCS#8) SHA-1 finalisations.'),
  'x509-extension-unchecked-cursor': dict(
   title='Certificate/CRL extension parser dereferences the cursor at and beyond extEnd',
   where='crypto/keyformat/x509.c getExplicitExtensions: :4240,:4277 (basicConstraints), :4326,:4360 (keyUsage), :4376 (extKeyUsage), :4456-4462 (nameConstraints), :4560-4617 (cRLDistributionPoints), :4664,:4683,:4713 (authorityKeyIdentifier), :4736 (subjectKeyIdentifier)',
@@ -271,7 +271,7 @@ for name, f in F.items():
     md = ['# %s' % f['title'], '',
           ('* **Finding id / patch:** `%s` (`findings/%s.patch`)' % (name, name)) if patch else
           ('* **Finding id:** `%s` - **already fixed in /repo HEAD** by commit %s while this campaign was running (found independently here; no patch needed, the reproducer now passes on /repo and is kept as a regression input)' % (name, UPSTREAM.get(name, '?'))),
-          '* **Where (in /repo HEAD):** %s' % f['where'],
+          '* **Where:** %s  (line numbers as of the /repo snapshot this campaign started from, commit 04ff8ed; later fix commits in /repo shift some of them by a few lines)' % f['where'],
           '* **Failure signature:** on the fully patched tree minus this fix: `%s`; on unpatched /repo the same input gives `%s` (an earlier defect may fire first there)' % (v.get('sig_minus', '?'), v.get('sig_repo', '?')),
           '* **Reproducer:** `corpus/C09/%s/regress/%s` (%s bytes) - `bin/check C09 --replay corpus/C09/%s/regress/%s`' % (v.get('target', '?'), name, v.get('size', '?'), v.get('target', '?'), name), '',
           '## What fails', f['what'], '',
